@@ -153,6 +153,29 @@ Proof.
   eexists. split; [reflexivity|]. cbn. repeat split. intros Ha. unfold step. cbn. rewrite Ha. reflexivity.
 Qed.
 
+(* the result store (kind KSticky): nothing Start does before its loop reads the close channel (derived context 1-2,
+   ticker 3-4, loop 5); the loop runs the collector on a tick (1), ends with nil when the context is done, and on a
+   close request acknowledges it (2) and ends with nil; Close deposits the request (1) and returns nil whether or not
+   a Start is executing.  In the model, a KSticky service entered with a request pending returns nil at once and the
+   request is consumed; otherwise it becomes active, and an active one that sees a request ends with nil *)
+Lemma gen_rs_sticky : forall s, s_g s = GLaunched ->
+  g_rs_start = ([1; 2; 3; 4; 5], Fall) /\ g_rs_close = ([1], RetO 0) /\
+  g_rs_loop_body true false false = ([1], Fall) /\ g_rs_loop_body false true false = ([], RetO 0) /\
+  g_rs_loop_body false false true = ([2], RetO 0) /\
+  exists s1, step (cfg_new KSticky) s GEnter = Some s1 /\ v_started s1 = true /\ v_stopreq s1 = false /\
+    s_g s1 = (if v_stopreq s then GSend MNil else GActive).
+Proof.
+  intros s H.
+  split; [reflexivity|]. split; [reflexivity|]. split; [reflexivity|]. split; [reflexivity|]. split; [reflexivity|].
+  unfold step. rewrite H. cbn. destruct (v_stopreq s) eqn:E; eexists; (split; [reflexivity|]); cbn; auto.
+Qed.
+
+Lemma gen_rs_stop : forall s, s_g s = GActive -> v_stopreq s = true ->
+  exists s1, step (cfg_new KSticky) s GStop = Some s1 /\ s_g s1 = GSend MNil /\ v_stopreq s1 = false.
+Proof.
+  intros s H R. unfold step. rewrite H, R. cbn. eexists. split; [reflexivity|]. cbn. auto.
+Qed.
+
 (* plugin.Close closes every recoverer, in order, joining the errors; startServices launches every recoverer *)
 Lemma gen_plugin_close :
   g_plugin_close = ([1], RetO 1) /\ g_plugin_close_body = ([1], Fall) /\ g_plugin_start_body = ([1], Fall).
